@@ -96,8 +96,14 @@ def to_sym(v):
     if isinstance(v, SymStr): return v.term
     if isinstance(v, BStr):
         c = v.concrete()
-        if c is None: raise Unmodelled('symbolic bounded string used as an opaque string')
-        return zs(c)
+        if c is not None: return zs(c)
+        parts, run = [], []
+        for ch in v.chars():
+            if isinstance(ch, int): run.append(chr(ch)); continue
+            if run: parts.append(zs(''.join(run))); run = []
+            parts.append(z3.Unit(z3.CharFromBv(z3.Extract(17, 0, ch))))
+        if run: parts.append(zs(''.join(run)))
+        return z3.Concat(*parts) if len(parts) > 1 else parts[0]
     raise Unmodelled(f'not a string: {v!r}')
 
 
